@@ -55,6 +55,10 @@ CLAIMED['C12'] = ('exploration', 'deterministic simulation: seeded databases, MT
     'Seeded search over generated databases (mixed UUID widths, value lengths around k*(MTU-1) and MTU-3, static and callback values), client/server MTU 23..517, one or two clients plus an optional enhanced bearer. Oracle: every discovery API reconstructs the independently computed layout (handles, group ends, 128-bit UUID value, properties; default services taken from the server object), reads equal the current server value incl. long reads, writes are visible on the server, a push through each of the four server APIs reaches exactly the bearers subscribed for that kind, as 0x1B or 0x1D on the wire, truncated to MTU-3, and an indicating call returns only after the confirmations are on the wire. Termination: every discovery API against a scripted server (empty lists, repeated/decreasing handles, 0xFFFF, wrong response type, unexpected errors, short entries, non-advancing handles) returns or raises; the 4th identical (request, answer) pair is a non-terminating loop. Sampling, not proof.',
     'Trusted: expected layout builder (bsim/gattdb.py); the scripted server is only as adversarial as its 10 answer kinds; discoveries still advancing after 3000 requests are inconclusive.', 'DESIGN.md §5 C12')
 
+CLAIMED['C15'] = ('fault_enumeration', 'deterministic simulation: seeded key-store histories on a simulated file system, a crash / I/O error enumerated at every file-system step of every mutating operation',
+    'For each seeded history (update/delete/delete_all/get/get_all/get_resolving_keys over 3 peers x 3 namespaces + a default-namespace instance on one file, all PairingKeys field-presence combinations) a fault-free run is compared operation by operation with a reference map (replace and overlay update semantics side by side, default-namespace rule from the class docstring), then the history is re-run once per file-system step of every mutating operation with a process crash before/after that step or EIO/ENOSPC before it: the file must parse and equal the complete previous or complete new state of all namespaces, and the rest of the history must still behave like the model on the surviving tree. The fault space per history is enumerated completely; histories are sampled.',
+    'Trusted: SimFS process-crash model (flushed writes survive, user-space buffers do not, rename atomic, inode semantics); power-loss semantics are not claimed.', 'DESIGN.md §5 C15')
+
 NOT_YET = {}
 
 
